@@ -134,11 +134,11 @@ def ghostRx (rs : Spec.Reasm) (n : Nat) (data : List Nat) : Spec.Reasm × Nat :=
   | .ok (h, p) => if h.hs then ({}, 0) else (rs.feed h p, n)
   | .error _ => (rs, n)
 
-theorem setup_ring (s : Session) (v m w : Nat) : RingRep (s.setup v m w).recv {} 0 := by
-  constructor <;> simp [Session.setup, flat]
+theorem setup_ring (s : Session) (v m w now : Nat) : RingRep (s.setup v m w now).recv {} 0 := by
+  constructor <;> simp only [Session.setup] <;> (try split) <;> simp [flat]
 
 theorem handshakeReq_ring {s : Session} {g : Option Nat} {h : Hdr} {p : List Nat} {s' : Session}
-    (hok : s.processRxHandshakeReq g h p = .ok s') : RingRep s'.recv {} 0 := by
+    {now : Nat} (hok : s.processRxHandshakeReq g h p now = .ok s') : RingRep s'.recv {} 0 := by
   unfold Session.processRxHandshakeReq at hok
   split at hok
   · cases hok
@@ -152,10 +152,10 @@ theorem handshakeReq_ring {s : Session} {g : Option Nat} {h : Hdr} {p : List Nat
         · split at hok
           · cases hok
           · have := Except.ok.inj hok
-            rw [← this]; exact setup_ring _ _ _ _
+            rw [← this]; exact setup_ring _ _ _ _ _
 
 theorem handshakeResp_ring {s : Session} {h : Hdr} {p : List Nat} {s' : Session}
-    (hok : s.processRxHandshakeResp h p = .ok s') : RingRep s'.recv {} 0 := by
+    {now : Nat} (hok : s.processRxHandshakeResp h p now = .ok s') : RingRep s'.recv {} 0 := by
   unfold Session.processRxHandshakeResp at hok
   split at hok
   · cases hok
@@ -164,7 +164,7 @@ theorem handshakeResp_ring {s : Session} {h : Hdr} {p : List Nat} {s' : Session}
     · split at hok
       · cases hok
       · have := Except.ok.inj hok
-        rw [← this]; exact setup_ring _ _ _ _
+        rw [← this]; exact setup_ring _ _ _ _ _
 
 theorem processRx_ring {s : Session} (hs : SInv s) {rs : Spec.Reasm} {n : Nat} (hr : RingRep s.recv rs n)
     {g : Option Nat} {data : List Nat} (hd : Bytes data) {now : Nat} {s' : Session}
